@@ -1075,6 +1075,39 @@ def _forward_process_temps(fn):
             n.body.append(ast.Pass())
 
 
+def _forward_return_temps(fn):
+    """N17: `x = E` immediately followed by `return x` (x bound and read nowhere else) is `return E`."""
+    loads, stores = {}, {}
+    for n in _walk_no_nested(fn):
+        if isinstance(n, ast.Name):
+            d = loads if isinstance(n.ctx, ast.Load) else stores
+            d[n.id] = d.get(n.id, 0) + 1
+    changed = [False]
+
+    def block(stmts):
+        i = 0
+        while i < len(stmts):
+            st = stmts[i]
+            for field in ('body', 'orelse', 'finalbody'):
+                sub = getattr(st, field, None)
+                if isinstance(sub, list) and not isinstance(st, (ast.FunctionDef, ast.AsyncFunctionDef, ast.ClassDef)):
+                    block(sub)
+            for h in getattr(st, 'handlers', []) or []:
+                block(h.body)
+            if isinstance(st, ast.Assign) and len(st.targets) == 1 and isinstance(st.targets[0], ast.Name) \
+                    and i + 1 < len(stmts) and isinstance(stmts[i + 1], ast.Return) and isinstance(
+                        stmts[i + 1].value, ast.Name) and stmts[i + 1].value.id == st.targets[0].id \
+                    and loads.get(st.targets[0].id, 0) == 1 and stores.get(st.targets[0].id, 0) == 1 \
+                    and not any(isinstance(x, (ast.Yield, ast.YieldFrom)) for x in ast.walk(st.value)):
+                stmts[i + 1].value = st.value
+                del stmts[i]
+                changed[0] = True
+                continue
+            i += 1
+    block(fn.body)
+    return changed[0]
+
+
 def _forward_flags(fn):
     """N10: `ok = pred(...)` immediately followed by `if ok:` / `if not ok:` (ok used nowhere
     else): the call takes the flag's place in the test."""
@@ -1376,6 +1409,9 @@ def _fuse_comprehensions(fn):
 def normalize_module(tree, no_inline, all_classes=None, recorded=None):
     """Normalise one module in place.  Returns {helper qual: inlined call count}.
     recorded: {class name: names of its methods in the recorded (pinned) tree}."""
+    for fn_ in [n for n in ast.walk(tree) if isinstance(n, ast.FunctionDef)]:
+        _forward_return_temps(fn_)
+        _forward_flags(fn_)
     tree = _DictIdioms().visit(tree)
     tree = _IfExpDesugar().visit(tree)
     tree = _Unroll().visit(tree)
